@@ -269,13 +269,23 @@ static void run_foreign(uint64_t idx) {
     case 5: cls = "foreign:image-without-spline-keys"; w.card(fr::W::kv("SIMPLE", "T")); w.card(fr::W::kv("BITPIX", "-32")); w.card(fr::W::kv("NAXIS", "2")); w.card(fr::W::kv("NAXIS1", "4")); w.card(fr::W::kv("NAXIS2", "3")); w.end_header(); for (int i = 0; i < 12; i++) w.put_float(i); w.pad_data(); b = w.out; break;
     case 6: cls = "foreign:header-only-claims-huge-image"; w.card(fr::W::kv("SIMPLE", "T")); w.card(fr::W::kv("BITPIX", "-32")); w.card(fr::W::kv("NAXIS", "3")); w.card(fr::W::kv("NAXIS1", "100000")); w.card(fr::W::kv("NAXIS2", "100000")); w.card(fr::W::kv("NAXIS3", "100000")); w.card(fr::W::kv("ORDER", "2")); w.end_header(); b = w.out; break;
     case 7: cls = "foreign:order-huge"; { fr::Decoded d = s.d; fr::Bytes x = fr::encode(d); b = x; for (size_t c = 0; c < s.hdus[0].cards.size(); c++) if (s.hdus[0].cards[c].key == "ORDER0") set_card(b, 80 * c, fr::W::kv("ORDER0", "4000000000")); } break;
+    case 9: case 10: {   // axis lengths whose product wraps around: 2^22 x 2^21 x 2^21 = 2^64 elements, or 2^62 elements = 2^64 bytes; the knot extensions are real (64 / 40 MB)
+      cls = kind == 9 ? "foreign:axis-product-wraps-to-0-elements" : "foreign:axis-product-wraps-to-0-bytes";
+      std::vector<uint64_t> nax = kind == 9 ? std::vector<uint64_t>{1ull << 22, 1ull << 21, 1ull << 21} : std::vector<uint64_t>{1ull << 21, 1ull << 21, 1ull << 20};
+      w.card(fr::W::kv("SIMPLE", "T")); w.card(fr::W::kv("BITPIX", "-32")); w.card(fr::W::kv("NAXIS", "3"));
+      for (int i = 0; i < 3; i++) w.card(fr::W::kv("NAXIS" + std::to_string(i + 1), std::to_string(nax[2 - i])));
+      w.card(fr::W::kv("EXTEND", "T")); w.card(fr::W::ks("TYPE", "Spline Coefficient Table"));
+      for (int i = 0; i < 3; i++) w.card(fr::W::kv("ORDER" + std::to_string(i), "1"));
+      w.end_header();
+      for (int i = 0; i < 3; i++) { uint64_t nk = nax[i] + 2; w.card("XTENSION= 'IMAGE   '"); w.card(fr::W::kv("BITPIX", "-64")); w.card(fr::W::kv("NAXIS", "1")); w.card(fr::W::kv("NAXIS1", std::to_string(nk))); w.card(fr::W::kv("PCOUNT", "0")); w.card(fr::W::kv("GCOUNT", "1")); w.card(fr::W::ks("EXTNAME", "KNOTS" + std::to_string(i))); w.end_header(); w.out.reserve(w.out.size() + 8 * nk + 2880); for (uint64_t j = 0; j < nk; j++) w.put_double((double)j); w.pad_data(); }
+      b = w.out; break; }
     default: cls = "foreign:missing-or-directory"; break;
   }
   std::string path;
-  if (kind == 8) { path = (entry == E_CDISK) ? "." : "no-such-file.fits"; if (entry == E_MEM || entry == E_CMEM) return; }
+  if (kind == 11) { path = (entry == E_CDISK) ? "." : "no-such-file.fits"; if (entry == E_MEM || entry == E_CMEM) return; }
   else if (entry == E_DISK || entry == E_CTOR || entry == E_CDISK) { path = vf::fmt("c07f_%d.fits", (int)getpid()); std::ofstream f(path, std::ios::binary); f.write((const char*)b.data(), b.size()); }
   judge(s, b, cls, entry, path);
-  if (kind != 8 && !path.empty()) remove(path.c_str());
+  if (kind != 11 && !path.empty()) remove(path.c_str());
 }
 
 
@@ -316,7 +326,7 @@ int main(int argc, char** argv) {
   h.meta("deadline_quick", "900"); h.meta("deadline_thorough", "2400");
   h.timeout_s = 30;
   bool T = h.thorough;
-  h.add_space("foreign", 9 * E_N, run_foreign);
+  h.add_space("foreign", 12 * E_N, run_foreign);
   h.add_space("shapes", (9ull + 81 + 729) * E_N, run_shapes);
   for (int si = 0; si < 3; si++) {
     bool all_bytes = T || si == 0;
